@@ -14,7 +14,6 @@ import subprocess
 
 from . import pyarith
 from .pyexpr import Untranslatable
-from .crc import write_if_changed
 from ..paths import REPO, LEAN
 
 N, Z, B = 'Nat', 'Int', 'Bool'
@@ -108,6 +107,21 @@ GROUPS = {
               ref='Py.byteWidth mo', grid={'mo': WIDE}),
         ]),
 }
+
+
+def write_if_changed(path, text):
+    """atomic (C01 and C02 both regenerate CellArith.lean and may run side by side)"""
+    try:
+        if open(path).read() == text:
+            return False
+    except FileNotFoundError:
+        pass
+    os.makedirs(os.path.dirname(path), exist_ok=True)
+    tmp = f'{path}.{os.getpid()}.tmp'
+    with open(tmp, 'w') as f:
+        f.write(text)
+    os.replace(tmp, path)
+    return True
 
 
 def _lake_build(targets):
